@@ -347,6 +347,12 @@ def oracle_one(meta, cv, iv):
         return ("C10:%s:%s" % (fmt, field),
                 "%s: entry with %s=%s accepted with ARCHIVE_OK but it is missing from the archive read back" % (fmt, field, meta["desc"]))
     d = field_equal(field, sup, rx, fmt)
+    if d is None and not meta["header_only"] and fmt not in NO_BODY and (sup["mode"] & IFMT) == REG \
+            and sup["hardlink"] is None and sup["size"] is not None:
+        want = sup["body"][:sup["size"]]
+        got = rx[RB["body"]]
+        if rx[RB["dstatus"]] != 0 or got[:len(want)] != want:
+            d = "the body read back is %r... (status %d), written %r..." % (got[:12], rx[RB["dstatus"]], want[:12])
     if d:
         return ("C10:%s:%s" % (fmt, field),
                 "%s: archive_write_header returned ARCHIVE_OK for %s=%s but %s" % (fmt, field, meta["desc"], d))
@@ -357,7 +363,7 @@ def project_impl(iv):
     w = iv[0]
     return [[[e[0], e[2], e[3], e[4], e[5]] for e in w[1]], w[2], w[3], iv[1]]
 
-def run_resuming(rep, name, exe, lines, metas, env=None, timeout=900):
+def run_resuming(rep, name, exe, lines, metas, env=None, timeout=900, pid="C10"):
     """run the harness over all case lines; when it dies on a case (sanitizer abort, crash, hang) record that
     case as a violation of its own and resume behind it.  Returns a list with one output line or None per case."""
     out = [None] * len(lines)
@@ -370,10 +376,19 @@ def run_resuming(rep, name, exe, lines, metas, env=None, timeout=900):
             out[start + k] = l
         if rc == 0 and len(got) >= len(lines) - start:
             break
+        if len(got) >= len(lines) - start:
+            # every case was answered and the process still failed: a leak reported at exit, not tied to one case
+            summ = [l for l in err.split("\n") if "ERROR: " in l or "SUMMARY" in l]
+            rep.violation("%s:exit:%s" % (pid, vlib.crash_key(err)),
+                          "harness %s answered every case but exited with %s: %s" % (name, rc, "; ".join(summ)[:300]),
+                          dict(correspondence=name, stderr=err[-3000:]), found_input=True)
+            break
         k = start + min(len(got), len(lines) - start - 1)
         meta = metas[k]
         summ = [l for l in err.split("\n") if "ERROR: " in l or "SUMMARY" in l or "runtime error" in l or "TIMEOUT" in l]
-        rep.violation("C10:%s:crash-%s-%s" % (meta["fmt"], meta["field"], meta["desc"]),
+        ckey = ("%s:%s:crash-%s-%s" % (pid, meta["fmt"], meta["field"], meta["desc"])) if pid == "C10" else \
+               ("%s:%s:crash:%s" % (pid, meta["fmt"], vlib.crash_key(err)))
+        rep.violation(ckey,
                       "%s writer/reader harness died (rc=%s, %s) on the entry with %s=%s: %s" %
                       (meta["fmt"], rc, vlib.crash_key(err), meta["field"], meta["desc"], "; ".join(summ)[:300]),
                       dict(correspondence=name, case=lines[k], meta=meta, stderr=err[-3000:],
